@@ -123,6 +123,7 @@ def main():
     ap.add_argument("--seed", type=int, default=1)
     ap.add_argument("--out", default=None)
     ap.add_argument("--also", default="", help="comma separated further checks to run on each mutant")
+    ap.add_argument("--cross", action="store_true", help="run every other claimed check on the mutants the property's own check leaves silent")
     a = ap.parse_args()
     rng = ranges_of(a.pid)
     cand = []
@@ -140,7 +141,7 @@ def main():
     base = "/tmp/automut"
     os.makedirs(base, exist_ok=True)
 
-    def run(job):
+    def run(job, checks=checks):
         k, (path, idx) = job
         rs = rng[path]
         src = open(os.path.join("/repo", path)).read()
@@ -166,16 +167,27 @@ def main():
                 verdict[c] = "TIMEOUT"
         shutil.rmtree(scr, ignore_errors=True)
         line = src.splitlines()[site.lineno - 1].strip() if site.lineno - 1 < len(src.splitlines()) else ""
-        return dict(path=path, line=site.lineno, kind=site.kind, what=site.describe, source=line[:110], verdict=verdict)
+        return dict(k=k, path=path, line=site.lineno, kind=site.kind, what=site.describe, source=line[:110], verdict=verdict)
 
     with ThreadPoolExecutor(a.jobs) as ex:
         results = [r for r in ex.map(run, list(enumerate(cand))) if r]
     killed = [r for r in results if any(v in ("VIOLATION",) for v in r["verdict"].values())]
     errors = [r for r in results if r not in killed and any(v in ("ERROR", "TIMEOUT") for v in r["verdict"].values())]
     surv = [r for r in results if r not in killed and r not in errors]
+    killed = [r for r in results if any(v in ("VIOLATION",) for v in r["verdict"].values())]
+    errors = [r for r in results if r not in killed and any(v in ("ERROR", "TIMEOUT") for v in r["verdict"].values())]
+    surv = [r for r in results if r not in killed and r not in errors]
+    if a.cross:
+        others = [c["property_id"] for c in json.load(open(os.path.join(VERIF, "MANIFEST.json")))["checks"] if c["property_id"] != a.pid]
+        index = {(r["path"], r["line"], r["kind"], r["what"]): r for r in surv}
+        jobs = [(r["k"], cand[r["k"]]) for r in surv]
+        with ThreadPoolExecutor(a.jobs) as ex:
+            for r2 in ex.map(lambda j: run(j, others), jobs):
+                if r2 and (r2["path"], r2["line"], r2["kind"], r2["what"]) in index:
+                    index[(r2["path"], r2["line"], r2["kind"], r2["what"])]["cross"] = [c for c, v in r2["verdict"].items() if v == "VIOLATION"]
     print(f"{a.pid}: {len(results)} mutants in the anchored ranges: {len(killed)} reported as violations, {len(errors)} analysis errors (no verdict), {len(surv)} silent")
     for r in sorted(surv, key=lambda r: (r["path"], r["line"])):
-        print(f"  SILENT {r['path']}:{r['line']} [{r['kind']}] {r['what']} :: {r['source']}")
+        print(f"  SILENT {r['path']}:{r['line']} [{r['kind']}] {r['what']} :: {r['source']}" + (f"   <- caught by {','.join(r['cross'])}" if r.get("cross") else ""))
     for r in sorted(errors, key=lambda r: (r["path"], r["line"])):
         print(f"  ERROR  {r['path']}:{r['line']} [{r['kind']}] {r['what']} :: {r['source']}")
     if a.out:
